@@ -1,4 +1,5 @@
 import LyModel.Props.C07
+#print axioms LyModel.Props.C07.validate_idempotent
 #print axioms LyModel.Props.C07.dflt_flag_sound
 #print axioms LyModel.Props.C07.is_default_iff_rfc6243_fails
 #print axioms LyModel.Props.C07.is_default_iff_rfc6243_partial
